@@ -26,6 +26,7 @@ EXPLANATION = (
     "RequestRejectedException, and execute / _read_from_socket let it escape unconverted (exception-escape summary); (R3) every "
     "comparison of a caught rejection's message in the inverter classes is against a value of FAILURE_CODES. Wire behaviour per "
     "code and timing are not decided."
+    ' (R4, shared with C07.R1) no fragment of an earlier transmission survives into a retransmission, so an exception frame is validated on its own.'
 )
 
 
